@@ -89,6 +89,12 @@ trait Wire: Sized {
     fn dec(c: Codec, b: &[u8]) -> R<Self>;
     fn enc(&self, c: Codec) -> R<Vec<u8>>;
     fn exercise(&self) {}
+    /// the value after one of the value-preserving operations the type offers besides its codecs: `Clone::clone`, and —
+    /// where implemented — `ConditionallySelectable::conditional_select` choosing it over the default value, from either
+    /// argument position. None = the type offers none.
+    fn copy_alt(&self, _route: u8) -> Option<Self> {
+        None
+    }
 }
 
 macro_rules! wire_std {
@@ -122,6 +128,9 @@ macro_rules! wire_std {
             }
             fn exercise(&self) {
                 exercise::$t(self);
+            }
+            fn copy_alt(&self, route: u8) -> Option<Self> {
+                copy_alt::$t(self, route)
             }
         }
     };
@@ -164,6 +173,9 @@ macro_rules! wire_scalar {
                 let _ = format!("{:?}", self);
                 let _ = self.to_be_bytes();
                 let _ = self.to_le_bytes();
+            }
+            fn copy_alt(&self, _route: u8) -> Option<Self> {
+                Some(self.clone())
             }
         }
     };
@@ -489,6 +501,50 @@ mod exercise {
     }
 }
 
+
+/// `Clone` for every type; `conditional_select` for the types that implement it (choosing the value over the type's default
+/// from the second position with choice 1, from the first with choice 0)
+#[allow(non_snake_case)]
+mod copy_alt {
+    use super::*;
+    use subtle_like::*;
+    macro_rules! cloned {
+        ($($t:ident),*) => { $(pub fn $t<C: CI>(v: &super::$t<C>, _route: u8) -> Option<super::$t<C>> { Some(v.clone()) })* };
+    }
+    // `conditional_select` between values of DIFFERENT scheme variants panics by documented design (it is an in-memory
+    // helper, not a consumer of foreign data), so the other value must carry the same variant: the type's default is the
+    // Basic variant; for values of another variant the selection is made between the value and a copy of itself
+    macro_rules! selected {
+        ($tagged:expr; $($t:ident),*) => { $(pub fn $t<C: CI>(v: &super::$t<C>, route: u8) -> Option<super::$t<C>> {
+            let dflt = super::$t::<C>::default();
+            let same_variant = !$tagged || Vec::from(v).first() == Vec::from(&dflt).first();
+            let other = if same_variant { dflt } else { v.clone() };
+            Some(match route % 3 {
+                0 => v.clone(),
+                1 => <super::$t<C> as ConditionallySelectable>::conditional_select(&other, v, Choice::from(1u8)),
+                _ => <super::$t<C> as ConditionallySelectable>::conditional_select(v, &other, Choice::from(0u8)),
+            })
+        })* };
+    }
+    cloned!(SecretKeyShare, SignCryptCiphertext, SignCryptDecryptionKey, SignDecryptionShare, TimeCryptCiphertext, ElGamalProof, ElGamalDecryptionShare, ElGamalDecryptionKey);
+    pub fn PublicKeyShare<C: CI>(v: &super::PublicKeyShare<C>, route: u8) -> Option<super::PublicKeyShare<C>> {
+        // another value of the type: the same share under another identifier
+        let mut b = Vec::from(v);
+        *b.first_mut()? ^= 0x55;
+        let other = super::PublicKeyShare::<C>::try_from(b.as_slice()).ok()?;
+        Some(match route % 3 {
+            0 => v.clone(),
+            1 => <super::PublicKeyShare<C> as ConditionallySelectable>::conditional_select(&other, v, Choice::from(1u8)),
+            _ => <super::PublicKeyShare<C> as ConditionallySelectable>::conditional_select(v, &other, Choice::from(0u8)),
+        })
+    }
+    selected!(false; PublicKey, MultiPublicKey, ProofOfPossession, ElGamalCiphertext);
+    selected!(true; Signature, SignatureShare, AggregateSignature, MultiSignature, ProofCommitment, ProofOfKnowledge, ProofOfKnowledgeTimestamp);
+}
+mod subtle_like {
+    pub use subtle::{Choice, ConditionallySelectable};
+}
+
 /// secret keys and PoK scalars: the byte decoders refuse zero, but C04 needs the zero value
 /// to reach the signing entry points, so 32 zero bytes map to the type's Default (zero).
 fn sk_lenient<C: CI>(b: &[u8]) -> R<SecretKey<C>> {
@@ -550,6 +606,11 @@ macro_rules! with_ty {
 
 fn do_recode<T: Wire>(ci: Codec, co: Codec, b: &[u8]) -> R<Vec<Vec<u8>>> {
     let v = T::dec(ci, b)?;
+    Ok(vec![v.enc(co)?])
+}
+fn do_recode_alt<T: Wire>(ci: Codec, co: Codec, b: &[u8], route: u8) -> R<Vec<Vec<u8>>> {
+    let v = T::dec(ci, b)?;
+    let v = v.copy_alt(route).unwrap_or(v);
     Ok(vec![v.enc(co)?])
 }
 fn do_eq<T: Wire + PartialEq>(ca: Codec, a: &[u8], cb: Codec, b: &[u8]) -> R<Vec<Vec<u8>>> {
@@ -1196,6 +1257,25 @@ fn dispatch_alt<C: CI>(op: Op, a: &[&[u8]], route: u8) -> R<Option<Vec<Vec<u8>>>
     use blsful::inner_types::{Field, Group};
     let some = |v: Vec<Vec<u8>>| -> R<Option<Vec<Vec<u8>>>> { Ok(Some(v)) };
     match op {
+        Op::Recode => {
+            let ty = Ty::from_u8(*arg(a, 0)?.first().ok_or("ty")?).ok_or("ty")?;
+            let ci = Codec::from_u8(*arg(a, 1)?.first().ok_or("codec")?).ok_or("codec")?;
+            let co = Codec::from_u8(*arg(a, 2)?.first().ok_or("codec")?).ok_or("codec")?;
+            let b = arg(a, 3)?;
+            if ty == Ty::SecretKey && co == Codec::Bytes && route % 2 == 1 {
+                // the fixed-size array conversions of the secret key
+                let v = <SecretKey<C> as Wire>::dec(ci, b)?;
+                let by_ref: [u8; 32] = (&v).into();
+                let by_val: [u8; 32] = v.into();
+                if by_ref != by_val {
+                    return Err("alt: the two array conversions of a secret key differ".into());
+                }
+                return some(vec![by_val.to_vec()]);
+            }
+            with_ty!(ty, C, do_recode_alt(ci, co, b, route)).map(Some)
+        }
+        Op::ChallengeFromHash => some(vec![Vec::from(&BlsSignature::<C>::proof_challenge_from_hash(arg(a, 0)?))]),
+        Op::ChallengeRandom => some(vec![Vec::from(&BlsSignature::<C>::random_proof_challenge(ChaCha20Rng::from_seed(seed32(arg(a, 0)?)?)))]),
         Op::KeyFromHash => some(vec![Vec::from(&BlsSignature::<C>::secret_key_from_hash(arg(a, 0)?))]),
         Op::KeyRandomSeeded => some(vec![Vec::from(&BlsSignature::<C>::random_secret_key(ChaCha20Rng::from_seed(seed32(arg(a, 0)?)?)))]),
         Op::KeyNew => match route % 2 {
